@@ -372,7 +372,7 @@ def build_series(chk):
                     chk.undecided.append((f"C01/{cname}/post/weights{label}{sfx}", f"{len(sites)} reduction sites in the weight expression"))
                     continue
                 ps = framework.PrefixSum(f"{cname}{label}{sfx}".replace("-", "_").replace("@", "_"), spec["g"](idx))
-                eq = framework.match_sum(chk, f"{cname}/weights{label}{sfx}", sites[0], ps, spec["lo"], spec["hi"](), hy + extra, func=fq,
+                eq = framework.match_sum(chk, f"{cname}/weights{label}{sfx}", sites[0], ps, spec["lo"], spec["hi"](), hy + extra, func=fq, toplevel=True,
                                          meta={"replay": dict(rep, what="weights")}, assumptions=ax)
                 S = ps.range_sum(spec["lo"], spec["hi"]())
                 chk.add(f"{cname}/post/weights{label}-prefactor{sfx}", hy + extra + [eq], R(wterm) == spec["w"](idx, S), func=fq, assumptions=ax,
